@@ -524,7 +524,9 @@ def call_builtin(it, f, args, kwargs, node):
         if f.__name__ == 'isEnabledFor':
             return it.run.fresh_bool('logenabled')
         return None
-    if f is logging.getLogger or getattr(f, '__module__', None) == 'logging':
+    if f is logging.getLogger:
+        return logging.getLogger(*[a for a in args if isinstance(a, str)])
+    if getattr(f, '__module__', None) == 'logging':
         USED.add('logging (effect dropped, arguments evaluated)')
         return None
     if inspect.isclass(f):
